@@ -1926,7 +1926,11 @@ def monitor_c13_loop(t):
                 out.append(F("c13:abort-without-error", f"{fin['failed']} failures > max_failures={mf} but run() ended with {raised}"))
             else:
                 tid = int(raised.split(":")[1])
-                if dict((a, b) for a, b in fin["last"]).get(tid) != Status.failed:
+                # (a trial whose failure was polled together with a result on which the scheduler decided PAUSE / STOP is
+                # recorded under that decision afterwards - the end-clash family of c01:end-notified-twice; it did fail)
+                ever_failed = {x for _, cc, aa in calls if cc[:2] == ["be", "fetch"] and isinstance(aa, dict)
+                               for x, st in aa.get("status", []) if st == Status.failed}
+                if dict((a, b) for a, b in fin["last"]).get(tid) != Status.failed and tid not in ever_failed:
                     out.append(F("c13:abort-names-non-failed", f"error names trial {tid} which did not fail"))
         elif raised is not None and raised.startswith("failed:"):
             out.append(F("c13:abort-below-limit", f"run() aborted with {raised} although failures {fin['failed']} <= {mf}"))
